@@ -54,7 +54,9 @@ PyObject *build_py_states_values(
         PyList_SetItem(py_states, i, py_state);
         PyList_SetItem(py_values, i, PyFloat_FromDouble(values[i]));
     }
-    return Py_BuildValue("OO", py_states, py_values);
+    // "N" hands our references over to the tuple ("O" would add new ones and
+    // leak both lists on every call)
+    return Py_BuildValue("NN", py_states, py_values);
 }
 
 
